@@ -2,6 +2,7 @@ package main
 
 import (
 	"fmt"
+	"go/constant"
 	"go/types"
 	"strings"
 
@@ -123,6 +124,383 @@ func runC01(c *Ctx) {
 	runC01Rest(c, isTA)
 }
 
+
+// hasFact is a convenience over FactSet.find.
+func hasFact(fs FactSet, pred func(Fact) bool) (string, bool) {
+	f, ok := fs.find(pred)
+	if ok {
+		return f.String(), true
+	}
+	return "", false
+}
+
+func isMethodCall(t *Term, recvType, name string) bool {
+	return t != nil && t.Op == "call" && t.Fn != nil && t.Fn.Name() == name && t.Fn.Signature.Recv() != nil && typeKey(t.Fn.Signature.Recv().Type()) == recvType
+}
+
+func termHas(t *Term, pred func(*Term) bool) bool { return t.contains(pred) }
+
 func runC01Rest(c *Ctx, isTA *ssa.Function) {
-	_ = fmt.Sprint
+	p, fx := c.P, c.Fx
+	baseLE := c.Anchor("O3", pkgResInfo, "BaseResource", "LessEqual")
+	lessEqRes := c.Anchor("O3", pkgResInfo, "ResourceRequirements", "LessEqualResource")
+	if baseLE == nil || lessEqRes == nil {
+		return
+	}
+	isBaseLE := func(f Fact, taskRoot int, nodeTerm string) bool {
+		if !f.Pol || !f.T.isCallTo(baseLE) || len(f.T.Args) != 2 {
+			return false
+		}
+		return rootParam(f.T.Args[0]) == taskRoot && strings.HasSuffix(f.T.Args[0].String(), ".ResReq.BaseResource") && f.T.Args[1].String() == nodeTerm+".BaseResource"
+	}
+	// O2: IsTaskAllocatable fits against ni.Idle only; only the best-effort exit may skip the fit
+	type fitFn struct {
+		fn  *ssa.Function
+		arg int
+	}
+	fitFns := map[fitFn]bool{}
+	paths := fx.retPaths(isTA, 0, WantTrue)
+	for i, rp := range paths {
+		construct := fmt.Sprintf("%s accepting path#%d", funcKey(isTA), i)
+		if _, ok := hasFact(rp.Facts, func(f Fact) bool {
+			return f.Pol && isMethodCall(f.T, pkgResInfo+".ResourceRequirements", "IsEmpty") && rootParam(f.T.Args[0]) == 1
+		}); ok {
+			c.Hold("O2", "RET", construct, rp.Pos, "best-effort exit: the task requests nothing (ResReq.IsEmpty())")
+			continue
+		}
+		d, ok := hasFact(rp.Facts, func(f Fact) bool { return isBaseLE(f, 1, "param:0:ni.Idle") })
+		if !ok {
+			c.Viol("O2", "RET", construct, rp.Pos, "IsTaskAllocatable can return true without BaseResource.LessEqual(task.ResReq, ni.Idle): CPU/memory/scalar dimensions not compared against Idle; facts: "+trunc(rp.Facts.String(), 500))
+			continue
+		}
+		// any fit fact naming a node resource other than Idle?
+		if bad, ok := hasFact(rp.Facts, func(f Fact) bool {
+			return f.Pol && f.T.isCallTo(baseLE) && rootParam(f.T.Args[1]) == 0 && !strings.HasPrefix(f.T.Args[1].String(), "param:0:ni.Idle")
+		}); ok {
+			_ = bad
+		}
+		found := false
+		for _, f := range rp.Facts.sorted() {
+			if f.Pol && f.T.Op == "call" && f.T.Fn != nil && relPkg(funcPkgPath(f.T.Fn)) == pkgNodeInfo {
+				for ai, a := range f.T.Args {
+					if a.String() == "param:0:ni.Idle" {
+						fitFns[fitFn{f.T.Fn, ai}] = true
+						found = true
+					}
+				}
+			}
+		}
+		if !found {
+			c.Viol("O2", "RET", construct, rp.Pos, "no fit routine applied to ni.Idle on this accepting path")
+			continue
+		}
+		c.Hold("O2", "RET", construct, rp.Pos, d)
+	}
+	c.Floor("O2", "RET accepting paths of IsTaskAllocatable", len(paths), 2)
+	// O3 rule A: every fit routine applied to Idle covers base resources and GPUs on each accepting path
+	for ff := range fitFns {
+		c.Analysed(funcKey(ff.fn))
+		nodeTerm := termOf(ff.fn.Params[ff.arg]).String()
+		for i, rp := range fx.retPaths(ff.fn, 0, WantTrue) {
+			construct := fmt.Sprintf("%s accepting path#%d", funcKey(ff.fn), i)
+			_, okBase := hasFact(rp.Facts, func(f Fact) bool {
+				return f.Pol && f.T.isCallTo(baseLE) && f.T.Args[1].String() == nodeTerm+".BaseResource" && strings.HasSuffix(f.T.Args[0].String(), "ResReq.BaseResource")
+			})
+			dg, okGpu := hasFact(rp.Facts, func(f Fact) bool {
+				if f.Pol && f.T.isCallTo(lessEqRes) && f.T.Args[1].String() == nodeTerm {
+					return true
+				}
+				if f.T.Op == "bin" && (f.T.Name == "<" || f.T.Name == "<=") {
+					usesNodeGpus := termHas(f.T, func(x *Term) bool {
+						return isMethodCall(x, pkgResInfo+".Resource", "GPUs") && x.Args[0].String() == nodeTerm
+					})
+					usesDevices := termHas(f.T, func(x *Term) bool { return x.Op == "call" && x.Fn != nil && x.Fn.Name() == "GetNumOfGpuDevices" })
+					// accepting: devices <= available  (positive "<=" with devices on the left, or NOT available < devices)
+					return usesNodeGpus && usesDevices
+				}
+				return false
+			})
+			if !okBase {
+				c.Viol("O3", "RET", construct, rp.Pos, "fit routine accepts without comparing CPU/memory/scalar resources (BaseResource.LessEqual) against the node resources it was given")
+			} else if !okGpu {
+				c.Viol("O3", "RET", construct, rp.Pos, "fit routine accepts without a GPU-count / MIG comparison against the node resources it was given")
+			} else {
+				c.Hold("O3", "RET", construct, rp.Pos, "base: BaseResource.LessEqual; gpu: "+trunc(dg, 200))
+			}
+		}
+	}
+	c.Floor("O3", "RET fit routines", len(fitFns), 1)
+	// O3 rule C: LessEqualResource and the LessEqual family cover every dimension
+	{
+		tf := fx.retFacts(lessEqRes, 0, WantTrue, 0)
+		_, okBase := hasFact(tf, func(f Fact) bool {
+			return f.Pol && f.T.isCallTo(baseLE) && rootParam(f.T.Args[0]) == 0 && rootParam(f.T.Args[1]) == 1
+		})
+		_, okGpu := hasFact(tf, func(f Fact) bool {
+			return f.T.Op == "bin" && (f.T.Name == "<" || f.T.Name == "<=") &&
+				termHas(f.T, func(x *Term) bool { return isMethodCall(x, pkgResInfo+".Resource", "GPUs") && rootParam(x) == 1 }) &&
+				termHas(f.T, func(x *Term) bool { return x.Op == "call" && x.Fn != nil && x.Fn.Name() == "GPUs" && rootParam(x) == 0 })
+		})
+		refs := fieldRefs(lessEqRes, 2)
+		okMig := false
+		for f, idx := range refs {
+			if f.Name() == "scalarResources" && idx[1] {
+				okMig = true
+			}
+		}
+		migCall := p.reachesInstr(lessEqRes, func(in ssa.Instruction) bool {
+			cc, ok := in.(ssa.CallInstruction)
+			return ok && calleeOf(cc) != nil && calleeOf(cc).Name() == "MigResources"
+		}, 0, map[*ssa.Function]bool{})
+		c.Check(okBase, "O3", "RET", funcKey(lessEqRes)+": base resources", lessEqRes.Pos(), "true ⇒ BaseResource.LessEqual(r, rr)", "LessEqualResource can return true without BaseResource.LessEqual(r.BaseResource, rr.BaseResource)")
+		c.Check(okGpu, "O3", "RET", funcKey(lessEqRes)+": gpus", lessEqRes.Pos(), "true ⇒ requested GPUs compared with rr.GPUs()", "LessEqualResource can return true without comparing requested GPUs (incl. DRA) with rr.GPUs()")
+		c.Check(okMig && migCall, "O3", "FIELDS", funcKey(lessEqRes)+": MIG instances", lessEqRes.Pos(), "iterates r.MigResources() against rr.scalarResources", "LessEqualResource no longer compares MIG instance requests with the node's scalar resources")
+	}
+	for _, m := range []struct{ recv string }{{"BaseResource"}, {"Resource"}} {
+		fn := c.Anchor("O3", pkgResInfo, m.recv, "LessEqual")
+		if fn == nil {
+			continue
+		}
+		refs := fieldRefs(fn, 2)
+		tn := p.TypeObj(pkgResInfo, m.recv)
+		for _, f := range structFields(tn.Type()) {
+			idx := refs[f]
+			construct := fmt.Sprintf("%s covers field %s", funcKey(fn), f.Name())
+			c.Check(idx[0] && idx[1], "O3", "FIELDS", construct, fn.Pos(), "field read on both operands", fmt.Sprintf("LessEqual does not compare field %s of both operands: a resource dimension is not checked", f.Name()))
+		}
+		// numeric fields: the comparison must be a fact of the true result
+		tf := fx.retFacts(fn, 0, WantTrue, 0)
+		for _, f := range structFields(tn.Type()) {
+			if b, ok := f.Type().Underlying().(*types.Basic); !ok || b.Info()&types.IsNumeric == 0 {
+				continue
+			}
+			construct := fmt.Sprintf("%s orders field %s", funcKey(fn), f.Name())
+			d, ok := hasFact(tf, func(ft Fact) bool {
+				if ft.T.Op != "bin" || (ft.T.Name != "<" && ft.T.Name != "<=") {
+					return false
+				}
+				a, b := ft.T.Args[0], ft.T.Args[1]
+				if a.lastField() != f.Name() || b.lastField() != f.Name() {
+					return false
+				}
+				// accepted forms: NOT (rr.f < r.f)   or   r.f <= rr.f
+				if !ft.Pol && ft.T.Name == "<" {
+					return rootParam(a) == 1 && rootParam(b) == 0
+				}
+				if ft.Pol && ft.T.Name == "<=" {
+					return rootParam(a) == 0 && rootParam(b) == 1
+				}
+				return false
+			})
+			c.Check(ok, "O3", "RET", construct, fn.Pos(), d, fmt.Sprintf("LessEqual can return true although r.%s > rr.%s (comparison missing, reversed or non-strict where it matters)", f.Name(), f.Name()))
+		}
+	}
+
+	// O4: add/remove task resources: exact inverses per status arm, with the arms the statement demands
+	add := c.Anchor("O4", pkgNodeInfo, "NodeInfo", "addTaskResources")
+	rem := c.Anchor("O4", pkgNodeInfo, "NodeInfo", "removeTaskResources")
+	if add != nil && rem != nil {
+		tgt := func(t *Term) bool { return rootParam(t) == 0 && t.Op == "field" }
+		arm := func(f Fact) bool {
+			return f.T.Op == "bin" && f.T.Name == "==" && strings.HasSuffix(f.T.Args[0].String(), ".Status") && rootParam(f.T.Args[0]) == 1
+		}
+		ea, er := extractEffects(fx, add, tgt, arm), extractEffects(fx, rem, tgt, arm)
+		mism := pairInverse(ea, er)
+		c.Check(len(mism) == 0, "O4", "PAIR", funcKey(add)+" <-> "+funcKey(rem), add.Pos(), fmt.Sprintf("%d effects, all inverted per arm: %s", len(ea), trunc(effectsSummary(ea), 600)), "add/remove are not inverses: "+strings.Join(mism, "; "))
+		rel, okR := p.ConstInt(pkgPodStatus, "Releasing")
+		pip, okP := p.ConstInt(pkgPodStatus, "Pipelined")
+		if !okR || !okP {
+			c.Undec("O4", "CONST", "pod_status.Releasing/Pipelined", add.Pos(), "status constants not found")
+		} else {
+			relArm, pipArm := "<no Releasing arm>", "<no Pipelined arm>"
+			for _, e := range ea {
+				if strings.Contains(e.Arm, "NOT") {
+					continue
+				}
+				if strings.HasSuffix(e.Arm, fmt.Sprintf("== const:%d)", rel)) {
+					relArm = e.Arm
+				}
+				if strings.HasSuffix(e.Arm, fmt.Sprintf("== const:%d)", pip)) {
+					pipArm = e.Arm
+				}
+			}
+			type exp struct {
+				arm   string
+				exact bool
+				field string
+				op    string
+				want  bool
+				why   string
+			}
+			isDefault := func(e Effect) bool { return e.Arm != "" && !strings.Contains(e.Arm, " == ") || strings.HasPrefix(e.Arm, "NOT") }
+			var defArm string
+			for _, e := range ea {
+				if isDefault(e) {
+					defArm = e.Arm
+				}
+			}
+			exps := []exp{
+				{"", true, ".Used", "+", true, "every occupying pod raises Used"},
+				{relArm, true, ".Idle", "-", true, "a terminating (Releasing) pod still occupies Idle"},
+				{relArm, true, ".Releasing", "+", true, "a terminating pod is counted as releasing capacity"},
+				{pipArm, true, ".Releasing", "-", true, "a nominated (Pipelined) pod consumes releasing capacity"},
+				{pipArm, true, ".Idle", "-", false, "a nominated pod must not consume Idle"},
+				{pipArm, true, ".Idle", "+", false, "a nominated pod must not change Idle"},
+				{defArm, true, ".Idle", "-", true, "every other occupying pod lowers Idle"},
+			}
+			for _, e := range exps {
+				got := hasEffect(ea, e.arm, e.exact, e.field, e.op)
+				armName := e.arm
+				switch e.arm {
+				case "":
+					armName = "always"
+				case relArm:
+					armName = "Status==Releasing"
+				case pipArm:
+					armName = "Status==Pipelined"
+				default:
+					armName = "default"
+				}
+				construct := fmt.Sprintf("%s arm[%s] %s %s expected=%v", funcKey(add), armName, e.field, e.op, e.want)
+				c.Check(got == e.want, "O4", "PAIR", construct, add.Pos(), e.why, fmt.Sprintf("arm table of addTaskResources deviates from the property: %s (found=%v); effects: %s", e.why, got, trunc(effectsSummary(ea), 500)))
+			}
+			if defArm == "" {
+				c.Viol("O4", "PAIR", funcKey(add)+" default arm", add.Pos(), "no default status arm lowering Idle was found")
+			}
+		}
+	}
+
+	// O5: status groups and snapshot admission
+	runStatusConsts(c, "O5")
+	if fn := c.Anchor("O5", pkgNodeInfo, "NodeInfo", "AddTasksToNode"); fn != nil {
+		isActive := c.P.Func(pkgPodStatus, "", "IsActiveUsedStatus")
+		addTask := c.P.Func(pkgNodeInfo, "NodeInfo", "AddTask")
+		calls := instrsIn(fn, isCallToFn(addTask))
+		if len(calls) == 0 || isActive == nil {
+			c.Viol("O5", "MPT", funcKey(fn)+": AddTask per active pod", fn.Pos(), "snapshot construction no longer adds pods to the node (AddTask not called)")
+		}
+		for _, call := range calls {
+			ok, path := everyIterationPasses(call, isCallToFn(addTask), func(from, to *ssa.BasicBlock) bool {
+				return !fx.edgeEstablishes(from, to, func(f Fact) bool { return !f.Pol && f.T.isCallTo(isActive) })
+			})
+			c.Check(ok, "O5", "MPT", funcKey(fn)+": AddTask per active pod", instrPos(call), "every iteration adds the pod unless !IsActiveUsedStatus(status)", "a pod with an active-used status can be skipped when the node's pods are added (its capacity would be handed out): "+pathStr(path))
+		}
+	}
+
+	// O6: pod-slot check of the predicate
+	runC01PodSlots(c)
+
+	// O7: failed bind is undone
+	if fn := c.Anchor("O7", pkgFramework, "Statement", "commitAllocate"); fn != nil {
+		bindPod := c.Anchor("O7", pkgFramework, "Session", "BindPod")
+		unalloc := c.Anchor("O7", pkgFramework, "Statement", "unallocate")
+		if bindPod != nil && unalloc != nil {
+			calls := instrsIn(fn, isCallToFn(bindPod))
+			c.Floor("O7", "MPT BindPod calls in commitAllocate", len(calls), 1)
+			for _, in := range calls {
+				ok, why := failureCleanup(fx, in.(*ssa.Call), p.performs(isCallToFn(unalloc), 2))
+				c.Check(ok, "O7", "MPT", funcKey(fn)+": BindPod failure -> unallocate", instrPos(in), why, "failed bind is not undone: "+why)
+			}
+			nf := fx.retFacts(bindPod, 0, WantNil, 0)
+			d, ok := hasFact(nf, func(f Fact) bool {
+				return factNilOf(f, true, func(t *Term) bool { return t.M != nil && t.M.Name() == "Bind" })
+			})
+			c.Check(ok, "O7", "RET", funcKey(bindPod)+": nil ⇒ Cache.Bind nil", bindPod.Pos(), d, "Session.BindPod can return nil although Cache.Bind failed (the failure would not be undone)")
+		}
+	}
+}
+
+// runStatusConsts: the bit-set lattice of pod_status, decided by constant-folding the predicates.
+func runStatusConsts(c *Ctx, id string) {
+	p := c.P
+	names := []string{"Pending", "Gated", "Allocated", "Pipelined", "Binding", "Bound", "Running", "Releasing", "Succeeded", "Failed", "Unknown", "Deleted"}
+	type expect struct {
+		pred string
+		in   map[string]bool
+		why  string
+	}
+	set := func(xs ...string) map[string]bool {
+		m := map[string]bool{}
+		for _, x := range xs {
+			m[x] = true
+		}
+		return m
+	}
+	exps := []expect{
+		{"IsActiveUsedStatus", set("Allocated", "Pipelined", "Binding", "Bound", "Running", "Releasing"), "pods occupying (or nominated onto) a node are charged to it"},
+		{"IsActiveAllocatedStatus", set("Allocated", "Pipelined", "Binding", "Bound", "Running"), "active allocated = occupying and not terminating"},
+		{"AllocatedStatus", set("Allocated", "Bound", "Binding", "Running"), "allocated = really holding resources (not nominated, not terminating)"},
+		{"IsAliveStatus", set("Allocated", "Pipelined", "Binding", "Bound", "Running", "Pending", "Gated"), "alive statuses"},
+	}
+	n := 0
+	for _, e := range exps {
+		fn := p.Func(pkgPodStatus, "", e.pred)
+		if fn == nil {
+			c.Undec(id, "ANCHOR", pkgPodStatus+"."+e.pred, 0, "status predicate not found")
+			continue
+		}
+		c.Analysed(funcKey(fn))
+		for _, nme := range names {
+			v := p.ConstVal(pkgPodStatus, nme)
+			if v == nil {
+				c.Undec(id, "CONST", pkgPodStatus+"."+nme, 0, "status constant not found")
+				continue
+			}
+			r, err := constEval(fn, []constant.Value{v}, 0)
+			construct := fmt.Sprintf("%s(%s)", e.pred, nme)
+			if err != nil {
+				c.Undec(id, "CONST", construct, fn.Pos(), "cannot fold: "+err.Error())
+				continue
+			}
+			n++
+			got := constant.BoolVal(r)
+			c.Check(got == e.in[nme], id, "CONST", construct, fn.Pos(), fmt.Sprintf("= %v", got), fmt.Sprintf("%s(%s) = %v, expected %v: %s", e.pred, nme, got, e.in[nme], e.why))
+		}
+	}
+	c.Floor(id, "CONST status predicate evaluations", n, 48)
+}
+
+func runC01PodSlots(c *Ctx) {
+	fx := c.Fx
+	pkgPred := "pkg/scheduler/plugins/predicates"
+	chk := c.Anchor("O6", pkgPred, "predicatesPlugin", "checkMaxPodsWithGpuGroupReservation")
+	eval := c.Anchor("O6", pkgPred, "predicatesPlugin", "evaluateTaskOnPredicates")
+	if chk == nil || eval == nil {
+		return
+	}
+	nf := fx.retFacts(eval, 0, WantNil, 0)
+	d, ok := hasFact(nf, func(f Fact) bool { return factNilOf(f, true, func(t *Term) bool { return t.isCallTo(chk) }) })
+	c.Check(ok, "O6", "RET", funcKey(eval)+": nil ⇒ pod-slot check nil", eval.Pos(), d, "the node predicate can accept a node without the pod-slot check (checkMaxPodsWithGpuGroupReservation) having passed")
+	isAvail := func(t *Term) bool {
+		// Idle.Get(pods) + Releasing.Get(pods)
+		return t.Op == "bin" && t.Name == "+" && termHas(t, func(x *Term) bool { return x.Op == "field" && x.Name == "Idle" })
+	}
+	paths := fx.retPaths(chk, 0, WantNil)
+	for i, rp := range paths {
+		construct := fmt.Sprintf("%s nil path#%d", funcKey(chk), i)
+		// (a) not a shared request and 0 < available
+		_, notShared := hasFact(rp.Facts, func(f Fact) bool {
+			return !f.Pol && f.T.Op == "call" && f.T.Fn != nil && f.T.Fn.Name() == "IsSharedGPURequest"
+		})
+		_, pos := hasFact(rp.Facts, func(f Fact) bool {
+			return f.Pol && f.T.Op == "bin" && f.T.Name == "<" && f.T.Args[0].String() == "const:0" && isAvail(f.T.Args[1])
+		})
+		_, noNew := hasFact(rp.Facts, func(f Fact) bool {
+			return !f.Pol && f.T.Op == "call" && f.T.Fn != nil && f.T.Fn.Name() == "willCreateNewGpuGroup"
+		})
+		_, two := hasFact(rp.Facts, func(f Fact) bool {
+			return !f.Pol && f.T.Op == "bin" && f.T.Name == "<" && isAvail(f.T.Args[0]) && f.T.Args[1].String() == "const:2"
+		})
+		switch {
+		case notShared && pos:
+			c.Hold("O6", "RET", construct, rp.Pos, "non-shared request: available pod slots > 0")
+		case noNew:
+			c.Hold("O6", "RET", construct, rp.Pos, "shared request joining an existing group: no reservation pod needed")
+		case two:
+			c.Hold("O6", "RET", construct, rp.Pos, "new GPU group: NOT (available pod slots < 2) — one slot kept for the reservation pod")
+		default:
+			c.Viol("O6", "RET", construct, rp.Pos, "pod-slot check passes without room for the pod (and, for a new GPU group, its reservation pod); facts: "+trunc(rp.Facts.String(), 500))
+		}
+	}
+	c.Floor("O6", "RET nil paths of pod-slot check", len(paths), 3)
 }
